@@ -457,7 +457,16 @@ func ROptLoop(c *core.Ctx) {
 				if !onlyLoops {
 					continue
 				}
-				for _, bs := range cc.Body {
+				body := cc.Body
+				// `fallthrough` continues in the next clause: its statements belong to this arm too
+				for idx := indexOfClause(sw, cc); len(body) > 0 && idx >= 0 && idx+1 < len(sw.Body.List); idx++ {
+					br, isBr := body[len(body)-1].(*ast.BranchStmt)
+					if !isBr || br.Tok != token.FALLTHROUGH {
+						break
+					}
+					body = append(append([]ast.Stmt(nil), body...), sw.Body.List[idx+1].(*ast.CaseClause).Body...)
+				}
+				for _, bs := range body {
 					ast.Inspect(bs, func(y ast.Node) bool {
 						ie, ok := y.(*ast.IndexExpr)
 						if !ok || core.FieldOf(info, ie.X) != children {
@@ -466,7 +475,15 @@ func ROptLoop(c *core.Ctx) {
 						if types.ExprString(ast.Unparen(ie.X).(*ast.SelectorExpr).X) != base {
 							return true
 						}
-						report(ie.Pos(), base, ie, nil)
+						// the guard may sit in the loop-only clause before the fallthrough
+						var inline ast.Expr
+						for _, st := range cc.Body {
+							if ifs, ok := st.(*ast.IfStmt); ok && ifs.End() <= ie.Pos() && endsFunction(ifs.Body) {
+								// `if node.M <= 0 { return … }` : afterwards the negation holds
+								inline = &ast.UnaryExpr{Op: token.NOT, X: ifs.Cond}
+							}
+						}
+						report(ie.Pos(), base, ie, inline)
 						return true
 					})
 				}
@@ -662,4 +679,22 @@ func RXField(c *core.Ctx) {
 			return true
 		})
 	}
+}
+
+func indexOfClause(sw *ast.SwitchStmt, cc *ast.CaseClause) int {
+	for i, st := range sw.Body.List {
+		if st == ast.Stmt(cc) {
+			return i
+		}
+	}
+	return -1
+}
+
+// endsFunction: the block's last statement is a return.
+func endsFunction(b *ast.BlockStmt) bool {
+	if len(b.List) == 0 {
+		return false
+	}
+	_, ok := b.List[len(b.List)-1].(*ast.ReturnStmt)
+	return ok
 }
